@@ -20,6 +20,7 @@ pub const EXTRA_CLASSES: &[&str] = &[
     "once_ctx",      // a permutation of all symbols repeated with different permutations: most order-1 contexts occur once
     "unique_last",   // dna-like, the last byte is a symbol that occurs nowhere else (context with empty table)
     "rares_many",    // 1 dominant symbol + ~200 symbols occurring once each, in random places
+    "all256_runs",   // every one of the 256 byte values in runs of 2..=6: with an RLE transform ALL 256 symbols are run symbols (count stored as 0)
 ];
 
 pub fn all_classes() -> Vec<&'static str> {
@@ -167,6 +168,19 @@ pub fn make(class: &str, len: usize, rng: &mut Rng) -> Vec<u8> {
             for k in 0..n {
                 v[places[k]] = perm[k];
             }
+        }
+        "all256_runs" => {
+            while v.len() < len {
+                let mut perm: Vec<u8> = (0..=255).collect();
+                rng.shuffle(&mut perm);
+                let r = rng.urange(2, 6).max(2);
+                for s in perm {
+                    for _ in 0..r {
+                        v.push(s);
+                    }
+                }
+            }
+            v.truncate(len);
         }
         _ => panic!("unknown payload class {class}"),
     }
